@@ -29,7 +29,8 @@ func c18exec(st *c18state, op Op) Ev {
 	name := gets(op, "op")
 	x, y := geti(op, "x"), geti(op, "y")
 	items := getis(op, "items")
-	ev := Ev{"op": name, "x": x, "y": y, "items": ints(items), "ret": 0, "sets": []any{}, "preds": [][5]int{}, "hass": []any{}}
+	ev := Ev{"op": name, "x": x, "y": y, "items": ints(items), "ret": 0, "sets": []any{}, "preds": [][5]int{}, "hass": []any{},
+		"lo": geti(op, "lo"), "hi": geti(op, "hi"), "big": 0}
 	guard(ev, func() {
 		switch name {
 		case "new":
@@ -38,6 +39,13 @@ func c18exec(st *c18state, op Op) Ev {
 			st.s[x] = mapset.New(items...)
 		case "add":
 			st.s[x].Add(items...)
+		case "addrange": // Add(lo, lo+1, ..., hi-1)
+			lo, hi := geti(op, "lo"), geti(op, "hi")
+			vals := make([]int, 0, hi-lo)
+			for v := lo; v < hi; v++ {
+				vals = append(vals, v)
+			}
+			st.s[x].Add(vals...)
 		case "addall":
 			st.s[x].AddAll(st.s[y])
 		case "remove":
@@ -73,8 +81,19 @@ func c18exec(st *c18state, op Op) Ev {
 		default:
 			die("C18: unknown op %q", name)
 		}
+		big := st.s[1].Len() > 64 || st.s[2].Len() > 64 || st.s[3].Len() > 64
+		ev["big"] = b2i(big)
 		sets := []any{}
-		for i := 1; i <= 3; i++ {
+		for i := 1; i <= 3 && big; i++ {
+			// large sets: Len, IsEmpty and membership probes only (members = [value, has])
+			s := st.s[i]
+			probes := [][2]int{}
+			for _, p := range []int{-1, 0, 1, 2, 63, 64, 65, 255, 256, 65535, 65536, 65537, 65538, 70000, 131071, 131072} {
+				probes = append(probes, [2]int{p, b2i(s.Has(p))})
+			}
+			sets = append(sets, []any{b2i(s == nil), s.Len(), b2i(s.IsEmpty()), probes, len(s.Slice()), len(s.Append([]int{99}))})
+		}
+		for i := 1; i <= 3 && !big; i++ {
 			s := st.s[i]
 			var members []int
 			for p := -1; p <= 8; p++ {
@@ -126,6 +145,25 @@ func runC18(c *Ctx) {
 	for _, p := range c.Paths {
 		replayC18(c, c.NewHist("tlc-path"), p)
 	}
+	// sets whose sizes differ by a multiple of 2^16 (and 2^8): integer-width corners of Len comparisons
+	for i := 0; i < c.Pick(2, 10); i++ {
+		c.genGuard(func() {
+			rng := c.Rng("c18-big", i)
+			h := c.NewHist("big-sets")
+			st := &c18state{}
+			do := func(op Op) { h.Emit(c18exec(st, op)) }
+			do(Op{"op": "new"})
+			small := rng.Intn(4)
+			width := []int{65536, 65536, 256, 131072}[i%4]
+			do(Op{"op": "addrange", "x": 1, "lo": 0, "hi": small})
+			do(Op{"op": "addrange", "x": 2, "lo": 0, "hi": small + width})
+			do(Op{"op": "clone", "x": 2, "y": 3})
+			do(Op{"op": "remove", "x": 3, "items": []int{small + width - 1}})
+			do(Op{"op": "addall", "x": 1, "y": 3})
+			do(Op{"op": "removeall", "x": 2, "y": 1})
+			do(Op{"op": "intersect", "items": []int{1, 3, 2}, "y": 2})
+		})
+	}
 	nh := c.Pick(300, 8000)
 	for i := 0; i < nh; i++ {
 		c.genGuard(func() {
@@ -159,9 +197,19 @@ func runC18(c *Ctx) {
 				case 8:
 					do(Op{"op": "clone", "x": x, "y": y})
 				case 9:
-					ops := make([]int, rng.Intn(4))
+					nops := rng.Intn(4)
+					if rng.Intn(4) == 0 {
+						nops = 60 + rng.Intn(30) // more operands than a machine word has bits
+					}
+					ops := make([]int, nops)
 					for k := range ops {
 						ops[k] = 1 + rng.Intn(3)
+					}
+					if nops > 60 { // mostly one operand, the odd ones late in the list
+						for k := range ops {
+							ops[k] = ops[0]
+						}
+						ops[nops-1-rng.Intn(20)] = 1 + rng.Intn(3)
 					}
 					do(Op{"op": "intersect", "items": ops, "y": y})
 				case 10:
